@@ -14,6 +14,7 @@ std::vector<Topo> g_topos_f3i4;    // F == 3 over <= 4 ids
 std::vector<Topo> g_topos_f3;      // F == 3 over <= 5 ids
 std::vector<Topo> g_topos_f4;      // F == 4 over <= 5 ids
 std::vector<std::pair<std::string, Topo>> g_named;
+std::vector<Topo> g_topos_f2_only, g_topos_s2b_named, g_topos_s2b_perface;
 
 bool g_c09 = false;
 
@@ -133,6 +134,65 @@ void add_s2(mc::Runner &R, const std::string &name, const S2Topos *T, std::vecto
   R.add(s);
 }
 
+// ------------------------------------------------------------------ S2b: two attributes with independent seam patterns
+void add_s2b(mc::Runner &R, const std::string &name, const std::vector<Topo> *topos, bool per_face_second, std::vector<int> speeds_v,
+             bool quick, bool thorough, bool reduced = false) {
+  // reduced: only {tex + generic, Edgebreaker standard, split unset} (quick tier)
+  const uint64_t nv = reduced ? 1 : 2;
+  // (topology, bits1, bits2) x {tex q10 + generic u8, normal q8 + tex q10} x {eb std, eb valence} x split {unset, off} x speed
+  auto off = std::make_shared<std::vector<uint64_t>>();
+  uint64_t total = 0;
+  for (auto &t : *topos) {
+    off->push_back(total);
+    const int nb = 3 * (int)t.size();
+    total += (1ull << nb) * (per_face_second ? (1ull << t.size()) : (1ull << nb));
+  }
+  mc::Radix rx{(uint64_t)speeds_v.size(), nv, nv, nv, total};
+  auto make = [=](uint64_t idx, GeomDef *g, EncCfg *c) {
+    auto d = rx.decode(idx);
+    int ti = (int)off->size() - 1;
+    while ((*off)[ti] > d[4]) --ti;
+    const Topo &t = (*topos)[ti];
+    const int nb = 3 * (int)t.size();
+    uint64_t k = d[4] - (*off)[ti];
+    const uint32_t bits1 = (uint32_t)(k & ((1ull << nb) - 1));
+    uint32_t bits2 = (uint32_t)(k >> nb);
+    if (per_face_second) {
+      uint32_t e = 0;
+      for (size_t f = 0; f < t.size(); ++f)
+        if (bits2 & (1u << f)) e |= 7u << (3 * f);
+      bits2 = e;
+    }
+    const bool pairA = d[3] == 0;
+    *g = gs::s2b_mesh(t, bits1, bits2, gs::POS_F32_Q, pairA ? gs::SEAM_TEX_Q : gs::SEAM_NORMAL_Q, pairA ? gs::SEAM_GENERIC_U8 : gs::SEAM_TEX_Q);
+    *c = gs::mesh_cfg(d[2] == 0 ? 2 : 3, speeds_v[d[0]]);
+    c->split_on_seams = d[1] == 0 ? -1 : 0;
+    c->qbits = {11, pairA ? 10 : 8, pairA ? 0 : 10};
+  };
+  mc::Space s;
+  s.name = name;
+  s.size = rx.size();
+  s.quick = quick;
+  s.thorough = thorough;
+  s.run = [=](uint64_t idx, mc::Ctx &ctx) {
+    GeomDef g;
+    EncCfg c;
+    make(idx, &g, &c);
+    auto r = rt::check_roundtrip(g, c, ctx, "", !g_c09, g_c09);
+    if (r.decoded) {
+      ctx.count("cases_with_two_seam_attributes");
+      ctx.nontrivial_unique();
+    }
+  };
+  s.describe = [=](uint64_t idx) {
+    GeomDef g;
+    EncCfg c;
+    make(idx, &g, &c);
+    return text(g) + " " + text(c);
+  };
+  R.add(s);
+}
+
 // ------------------------------------------------------------------ S3
 // Attribute layouts: a second attribute of every type/data type/component
 // count on 4 fixed topologies, per-vertex or per-corner, with forced
@@ -209,7 +269,8 @@ struct S3Dims {
   std::vector<int> topos, atypes, dts, ncs, vss, poskinds, methods, speeds, preds, quants;
 };
 
-void add_s3(mc::Runner &R, const std::string &name, S3Dims D, bool quick, bool thorough, bool skip_32bit_extremes = false) {
+void add_s3(mc::Runner &R, const std::string &name, S3Dims D, bool quick, bool thorough, bool skip_32bit_extremes = false,
+            bool thin_32bit_extremes = false) {
   mc::Radix rx{2, (uint64_t)D.preds.size(), (uint64_t)D.speeds.size(), (uint64_t)D.methods.size(), (uint64_t)D.quants.size(),
                (uint64_t)D.poskinds.size(), (uint64_t)D.vss.size(), (uint64_t)D.ncs.size(), (uint64_t)D.dts.size(),
                (uint64_t)D.atypes.size(), 2, (uint64_t)D.topos.size()};
@@ -231,6 +292,11 @@ void add_s3(mc::Runner &R, const std::string &name, S3Dims D, bool quick, bool t
     // The recorded finding class "32-bit attribute with magnitudes >= 2^29" aborts the worker in most cases
     // (UBSan); it is explored in the smaller S3 space only, which both tiers run.
     if (skip_32bit_extremes && (dt == DT_INT32 || dt == DT_UINT32) && (vs == 1 || vs == 3)) return false;
+    // ... and thinned out to automatic prediction, entropy coding on, per-vertex values on the first topology, where
+    // every such case costs a worker restart and a symbolised sanitizer report.
+    if (thin_32bit_extremes && (dt == DT_INT32 || dt == DT_UINT32) && (vs == 1 || vs == 3) &&
+        !(pred == -100 && entropy && !per_corner && d[11] == 0))
+      return false;
     GeomDef g;
     g.is_mesh = true;
     const int k = gs::num_ids(t);
@@ -515,6 +581,12 @@ int main(int argc, char **argv) {
   for (auto &t : g_topos_f2)
     if (!t.empty()) g_s2_small.add(t);
   for (auto &n : g_named) g_s2_named.add(n.second);
+  for (auto &t : g_topos_f2)
+    if (!t.empty()) g_topos_f2_only.push_back(t);
+  for (auto &n : g_named) {
+    if (n.first == "closed_fan3" || n.first == "fan3") g_topos_s2b_named.push_back(n.second);
+    if (n.first == "tetrahedron" || n.first == "fan4" || n.first == "two_pillows") g_topos_s2b_perface.push_back(n.second);
+  }
 
   R.rule =
       "spaces S1 (all triangle lists up to vertex relabelling, F<=4 over <=5 ids, with/without an isolated point, 4 position "
@@ -540,6 +612,11 @@ int main(int argc, char **argv) {
     add_s2(R, "S2_F2_quick", &g_s2_small, {1}, {0, 1, 2}, {0, 2, 3}, false, true, false);
     add_s2(R, "S2_F2", &g_s2_small, {1, 2}, {0, 1, 2, 3}, {0, 1, 2, 3, 4}, true, false, true);
     add_s2(R, "S2_named", &g_s2_named, {1, 2}, {0, 1, 2}, {0, 2, 3}, false, false, true);
+    add_s2b(R, "S2b_F2_two_attributes_reduced", &g_topos_f2_only, false, {0}, true, false, true);
+    add_s2b(R, "S2b_closed_second_attribute_per_face_reduced", &g_topos_s2b_perface, true, {0, 5}, true, false, true);
+    add_s2b(R, "S2b_F2_two_attributes", &g_topos_f2_only, false, {0, 5}, false, true);
+    add_s2b(R, "S2b_fans_two_attributes", &g_topos_s2b_named, false, {0, 5}, false, true);
+    add_s2b(R, "S2b_closed_second_attribute_per_face", &g_topos_s2b_perface, true, {0, 3, 5}, false, true);
   } else {
     // ASan+UBSan build: the same enumerations at smaller bounds
     add_s1(R, "asan_S1_F2", &g_topos_f2, {0, 1, 2}, {0, 1, 2, 3}, false, true, true, true);
@@ -555,7 +632,7 @@ int main(int argc, char **argv) {
     t.topos = {0, 1, 2, 3}; t.atypes = {0, 1, 2, 3}; t.dts = {0, 1, 2, 3, 4, 5, 6}; t.ncs = {1, 2, 3, 4, 5}; t.vss = {0, 1, 2, 3};
     t.poskinds = {0, 1, 2}; t.methods = {0, 2, 3}; t.speeds = {0, 5, 10}; t.preds = {0, 1, 2, 3, 4, 5, 6, 7}; t.quants = {0, 8, 30};
     if (asan) {
-      add_s3(R, "asan_S3_quick", q, true, true);
+      add_s3(R, "asan_S3_quick", q, true, true, false, true);
       add_s3(R, "asan_S3", t, false, true, true);
       add_s4(R, "asan_S4_N3", 3, {0, 4, 10}, true, false);
       add_s4(R, "asan_S4_N4", 4, {0, 1, 2, 3, 4, 5, 6, 7, 8, 9, 10}, false, true);
